@@ -144,3 +144,53 @@ package resolver
 //@   nosafety all pre
 //@   assert at call (*internal/authority.Cache).SetUntil#1: arg1 == key && arg4 == lastret("middleware/resolver.minNonZero")
 //@   assert at call middleware/resolver.minNonZero#1: arg0 == cutDeadline && inst(arg1) <= inst(lastret("time.Now")) + 60000000000
+//@
+//@ # ---- C01: AD is set only on data validated up to a trust anchor.
+//@ # every upstream reply enters validation with AD cleared and the client's CD copied
+//@ func (*Resolver).setTags
+//@   requires req != nil && resp != nil
+//@   ensures result == resp && !resp.AuthenticatedData && resp.CheckingDisabled == req.CheckingDisabled
+//@
+//@ func (*Resolver).hasTrustAnchors
+//@   requires r != nil
+//@   modifies nothing
+//@   ensures result == (len(r.rootKeys) > 0)
+//@
+//@ # positive answers: validation is attempted only with trust anchors available (fail closed); a signer is used only
+//@ # if it is an ancestor of the query name; the chain is verified against a non-empty DS set obtained for THAT signer;
+//@ # AD is written only as the conjunction of chain verification and the wildcard (next-closer) check, and after a
+//@ # DNAME splice only as the conjunction with the target's AD
+//@ func (*Resolver).answer
+//@   abstract
+//@   nosafety all pre
+//@   assert at call (*middleware/resolver.Resolver).findRRSIGSigners#1: !r.dnssec || lastret("(*middleware/resolver.Resolver).hasTrustAnchors")
+//@   assert at call (*middleware/resolver.Resolver).findDS#1: lastret("middleware/resolver/dnssec.ValidateSigner") == nil && arg2 == signer
+//@   assert at call (*middleware/resolver.Resolver).verifyDNSSEC#1: lastret("middleware/resolver/dnssec.ValidateSigner") == nil && arg2 == signer && arg4 == resp && arg5 == lastret("(*middleware/resolver.Resolver).findDS") && len(arg5) > 0
+//@   assert at store dns.MsgHdr.AuthenticatedData#1: value ==> lastret("(*middleware/resolver.Resolver).verifyDNSSEC") && lastret("middleware/resolver/dnssec.VerifyWildcardAnswerForZoneWithWork")
+//@   assert at store dns.MsgHdr.AuthenticatedData#2: value ==> resp.AuthenticatedData && targetMsg.AuthenticatedData
+//@   assert at call internal/dnsutil.FilterRRsToZone#1: arg1 == signer && lastret("(*middleware/resolver.Resolver).verifyDNSSEC")
+//@
+//@ # negative answers: same discipline; AD and the validated-denial mark require chain verification
+//@ func (*Resolver).authority
+//@   abstract
+//@   nosafety all pre
+//@   assert at call (*middleware/resolver.Resolver).findRRSIGSigners#1: !r.dnssec || lastret("(*middleware/resolver.Resolver).hasTrustAnchors")
+//@   assert at call (*middleware/resolver.Resolver).findDS#1: lastret("middleware/resolver/dnssec.ValidateSigner") == nil && arg2 == signer
+//@   assert at call (*middleware/resolver.Resolver).verifyDNSSEC#1: lastret("middleware/resolver/dnssec.ValidateSigner") == nil && arg2 == signer && arg4 == resp && arg5 == lastret("(*middleware/resolver.Resolver).findDS") && len(arg5) > 0
+//@   assert at store dns.MsgHdr.AuthenticatedData#1: value ==> lastret("(*middleware/resolver.Resolver).verifyDNSSEC")
+//@   assert at call middleware.MarkValidatedNegativeProofResponse#1: lastret("(*middleware/resolver.Resolver).verifyDNSSEC") && arg1 == resp
+//@
+//@ # referrals: with CD=0 validation needs trust anchors (fail closed); a verified referral yields the child's signed DS
+//@ # set, or an empty DS set only after a denial proof from the validated signer zone verified; otherwise an error
+//@ func (*Resolver).validateDelegation
+//@   abstract
+//@   nosafety all pre
+//@   assert at call (*middleware/resolver.Resolver).findRRSIGSigners#1: !old(req.CheckingDisabled) && (!old(r.dnssec) || lastret("(*middleware/resolver.Resolver).hasTrustAnchors"))
+//@   assert at call (*middleware/resolver.Resolver).findDS#2: lastret("middleware/resolver/dnssec.ValidateSigner") == nil && arg2 == signer
+//@   assert at call (*middleware/resolver.Resolver).verifyDNSSEC#1: lastret("middleware/resolver/dnssec.ValidateSigner") == nil && arg2 == signer && arg4 == resp && arg5 == lastret("(*middleware/resolver.Resolver).findDS") && len(arg5) > 0
+//@   assert at return#12: lastret("(*middleware/resolver.Resolver).verifyDNSSEC") && len(result0) > 0 && result1 == nil
+//@   assert at return#14: lastret("(*middleware/resolver.Resolver).verifyDNSSEC") && lastret("middleware/resolver/dnssec.VerifyDelegationForZoneWithWork") == nil
+//@   assert at return#16: lastret("(*middleware/resolver.Resolver).verifyDNSSEC") && lastret("middleware/resolver/dnssec.VerifyDelegationNSEC") == nil
+//@   assert at return#17: result1 != nil
+//@   assert at call middleware/resolver/dnssec.VerifyDelegationForZoneWithWork#1: arg2 == lastret("internal/dnsutil.FilterRRsToZone")
+//@   assert at call middleware/resolver/dnssec.VerifyDelegationNSEC#1: arg1 == lastret("internal/dnsutil.FilterRRsToZone")
